@@ -467,14 +467,14 @@ impl ToStr {
 }
 impl Space for ToStr {
     fn name(&self) -> String {
-        "every *_to_str (+ *_to_string) over its domain: u8/u16 exhaustive; u32/i64 constants +-1 and boundary values (256 values per case); p_flags_to_string totality".into()
+        "every *_to_str (+ *_to_string) over its domain: u8/u16 exhaustive; u32/i64 constants +-1 and boundary values (256 values per case); p_flags_to_string totality and number-carrying fallback".into()
     }
     fn size(&self) -> u64 {
         self.blocks.len() as u64 + 1
     }
     fn describe(&self, idx: u64) -> Value {
         if idx as usize == self.blocks.len() {
-            return json!({"function": "p_flags_to_string", "domain": "boundary alphabet + 0..=16"});
+            return json!({"function": "p_flags_to_string", "domain": "boundary alphabet + 0..=65536 + 2^b-1, 2^b, 2^b+1, 2^b|5"});
         }
         let (fi, a) = self.blocks[idx as usize];
         let d = &self.domains[fi];
@@ -483,15 +483,30 @@ impl Space for ToStr {
     }
     fn run(&self, idx: u64, out: &mut Outcome) {
         if idx as usize == self.blocks.len() {
-            let mut vals = v32_alphabet();
-            vals.extend(0..=16);
+            let mut vals: Vec<i128> = v32_alphabet().into_iter().map(|v| v as i128).collect();
+            vals.extend(0..=0x1_0000);
+            vals.extend((0..32).flat_map(|b| [(1i128 << b) - 1, 1i128 << b, (1i128 << b) + 1, (1i128 << b) | 5]));
+            let named = (elf::abi::PF_R | elf::abi::PF_W | elf::abi::PF_X) as i128;
             for v in vals {
+                if !(0..=u32::MAX as i128).contains(&v) {
+                    continue;
+                }
                 out.transitions += 1;
                 match subject(|| elf::to_str::p_flags_to_string(v as u32)) {
                     Err(p) => out.violate("panic:p_flags_to_string", format!("arg {v}: {p}")),
                     Ok(s) => {
                         if s.is_empty() {
                             out.violate("to_string:p_flags_to_string", format!("empty text for {v}"));
+                        }
+                        // a value with bits no exported PF_R/PF_W/PF_X names has no symbolic form: the
+                        // text must carry the number (the whole value or its unnamed bits, decimal or hex)
+                        let extra = v & !named;
+                        if extra != 0 {
+                            let lower = s.to_lowercase();
+                            let ok = [v, extra].iter().any(|n| lower.contains(&format!("{n}")) || lower.contains(&format!("{n:x}")));
+                            if !ok {
+                                out.violate("to_string:p_flags_to_string", format!("p_flags {v:#x} has bits outside PF_R|PF_W|PF_X but its text {s:?} does not contain the number"));
+                            }
                         }
                     }
                 }
